@@ -30,6 +30,14 @@ CLAIMED = {
    technique="bounded exhaustive enumeration of provider populations x name assignments x requested names x field kinds x required/optional x sibling placements on the real container; all registration sequences (<=4) with colliding names on the real registry",
    text="Every population of <=3 providers over {TA,TB,TD} x {x,y,default name} with distinct registered names x requested name {x,y,TA's default name,absent} x field kind {*TA, I1, any} x required/optional x four sibling-field arrangements x both iteration orders is started for real (holders built with reflect.StructOf); oracle: field is exactly the component registered under the name; absent or not assignable => error (no panic) if required, untouched and no error if optional. All 780 (thorough 3905) registration sequences over five instances with colliding names: each name maps to its first instance.",
    note="Trusted: reflect.StructOf holders behave like declared structs (C11 checks twins); iteration-order shim. Outside: >3 providers; by-name tags on slice fields."),
+ "C08": dict(engine=E1, design="§7 C08",
+   technique="bounded exhaustive enumeration of provider populations x holder shapes x every permutation of candidate iteration order on the real container; per-field ranking reference model",
+   text="All provider multisets of size <=3 over {plain,primary} x {custom,default name} x qualifier {undeclared,'',g1,g2} are combined with holders (reflect.StructOf) carrying single and slice fields with each of six qualifier arguments, an optional no-candidate field at every position, pairs of independently qualified fields, and optional variants; every permutation of the providers' iteration order is started for real. Per field independently: nothing outside the requested qualifier set is injected, slices hold exactly the survivors, a unique Primary wins, else a unique default-named component, else any survivor; no survivor => error iff required.",
+   note="Trusted: iteration-order shim; StructOf holders. Outside: >3 providers (thorough 4), more than three fields per holder."),
+ "C10": dict(engine=E1+" (+E2 scheduler for scan-phase schedules)", design="§7 C10",
+   technique="differential bounded exhaustive exploration: each program under all permutations of iteration and registration order plus every single per-call order deviation on the real container; outcome signatures (tied points masked) must coincide",
+   text="C08 families under all provider permutations (registration order follows), holders that are candidates for their own field with <=2 other candidates under all permutations of (providers, holder), all 2-node graphs with self loops and 3-node graphs under all 6x6 (iteration, registration) orders, and 2-provider programs under every single non-default answer of every registry enumeration: the signature (success, per-point target, sorted slice contents, ties masked) must be identical across all executions of one program.",
+   note="Trusted: iteration-order shim owns every sync.Map / map range of the repository; tie definition from C08's reference. Outside: >3 providers, >1 (thorough 2) per-call deviations."),
  "C05": dict(engine=E1, design="§7 C05",
    technique="bounded exhaustive enumeration of graphs x lazy/eager x observer sets x iteration orders (deviation bound 1) on the real container; event-log oracle",
    text="All 3-node graphs x 8 lazy assignments x {0,1,2} observing processors x orders (all 6 base permutations; every single non-default iteration answer) are started for real; the event log must show exactly one populate->before->AfterPropertiesSet->Init->after sequence per created node, population complete before before-init (snapshot), non-back-depending dependencies initialised first, lazy nodes only on demand and exactly once.",
